@@ -144,7 +144,14 @@ func generateInjectors(g *gen, pkg *packages.Package) (injectorFiles []*ast.File
 	oc := newObjectCache([]*packages.Package{pkg})
 	injectorFiles = make([]*ast.File, 0, len(pkg.Syntax))
 	ec := new(errorCollector)
-	for _, f := range pkg.Syntax {
+	// The loader lists files in the order they were named on the command
+	// line when the package was given as a list of files; visit them in a
+	// fixed order so that the output does not depend on it.
+	files := append([]*ast.File(nil), pkg.Syntax...)
+	sort.SliceStable(files, func(i, j int) bool {
+		return pkg.Fset.File(files[i].Pos()).Name() < pkg.Fset.File(files[j].Pos()).Name()
+	})
+	for _, f := range files {
 		for _, decl := range f.Decls {
 			fn, ok := decl.(*ast.FuncDecl)
 			if !ok {
